@@ -134,6 +134,17 @@ EXPRS += [
     ("expr", "src/collections/vec.rs", "append_elements", ("arg", "reserve", 1, 0), "vec_append_reserves", ("count",)),
     ("expr", "src/collections/vec.rs", "append_elements", ("arg", "copy_nonoverlapping", 1, 1), "vec_append_copy_dst", ("count",)),
     ("expr", "src/collections/vec.rs", "append_elements", ("arg", "copy_nonoverlapping", 1, 2), "vec_append_copy_len", ("count",)),
+    # Splice: the gap Drain::fill writes into, and Drain::move_tail's reservation and memmove
+    ("expr", "src/collections/vec.rs", "fill", ("let", "range_start", 1), "vec_splice_fill_start"),
+    ("expr", "src/collections/vec.rs", "fill", ("let", "range_end", 1), "vec_splice_fill_end"),
+    ("expr", "src/collections/vec.rs", "fill", ("arg", "from_raw_parts_mut", 1, 0), "vec_splice_fill_at"),
+    ("expr", "src/collections/vec.rs", "fill", ("arg", "from_raw_parts_mut", 1, 1), "vec_splice_fill_gap"),
+    ("expr", "src/collections/vec.rs", "move_tail", ("let", "used_capacity", 1), "vec_splice_used_capacity"),
+    ("expr", "src/collections/vec.rs", "move_tail", ("arg", "reserve", 1, 1), "vec_splice_reserve_extra"),
+    ("expr", "src/collections/vec.rs", "move_tail", ("let", "new_tail_start", 1), "vec_splice_new_tail_start"),
+    ("expr", "src/collections/vec.rs", "move_tail", ("let", "src", 1), "vec_splice_move_src"),
+    ("expr", "src/collections/vec.rs", "move_tail", ("let", "dst", 1), "vec_splice_move_dst"),
+    ("expr", "src/collections/vec.rs", "move_tail", ("arg", "copy", 1, 2), "vec_splice_move_len"),
     # DrainFilter: the length its destructor restores
     ("expr", "src/collections/vec.rs", "impl:Drop for DrainFilter:drop", ("arg", "set_len", 1, 0), "vec_drain_filter_drop_new_len"),
     # Drain::drop: whether there is a tail to move back, whether it has to move, the memmove and the new length
@@ -256,6 +267,18 @@ FRAMES = [
      "iftail!=start{letsrc=source_vec.as_ptr().add(tail);letdst=source_vec.as_mut_ptr().add(start);ptr::copy(src,dst,self.tail_len);}source_vec.set_len(start+self.tail_len);"),
     ("src/collections/vec.rs", "drain", "vec_drain_shortens_first",
      "self.set_len(start);"),
+    ("src/collections/vec.rs", "impl:IntoIterator for Vec:into_iter", "vec_into_iter_spans_the_contents",
+     "letbegin=self.as_mut_ptr();letend=ifmem::size_of::<T>()==0{arith_offset(beginas*consti8,self.len()asisize)as*constT}else{begin.add(self.len())as*constT};mem::forget(self);IntoIter{phantom:PhantomData,ptr:begin,end,}"),
+    ("src/collections/vec.rs", "impl:Iterator for IntoIter:next", "vec_into_iter_next",
+     "ifself.ptras*const_==self.end{None}elseifmem::size_of::<T>()==0{self.ptr=arith_offset(self.ptras*consti8,1)as*mutT;Some(mem::zeroed())}else{letold=self.ptr;self.ptr=self.ptr.offset(1);Some(ptr::read(old))}"),
+    ("src/collections/vec.rs", "impl:DoubleEndedIterator for IntoIter:next_back", "vec_into_iter_next_back",
+     "ifself.end==self.ptr{None}elseifmem::size_of::<T>()==0{self.end=arith_offset(self.endas*consti8,-1)as*mutT;Some(mem::zeroed())}else{self.end=self.end.offset(-1);Some(ptr::read(self.end))}"),
+    ("src/collections/vec.rs", "impl:Drop for IntoIter:drop", "vec_into_iter_drop_drops_the_rest", "{self.for_each(drop);}"),
+    ("src/collections/vec.rs", "fill", "vec_splice_fill_loop",
+     "forplaceinrange_slice{ifletSome(new_item)=replace_with.next(){ptr::write(place,new_item);vec.len+=1;}else{returnfalse;}}true"),
+    ("src/collections/vec.rs", "move_tail", "vec_splice_move_tail_stores", "ptr::copy(src,dst,self.tail_len);self.tail_start=new_tail_start;"),
+    ("src/collections/vec.rs", "impl:Drop for Splice:drop", "vec_splice_drop_steps",
+     "{self.drain.by_ref().for_each(drop);unsafe{ifself.drain.tail_len==0{self.drain.vec.as_mut().extend(self.replace_with.by_ref());return;}if!self.drain.fill(&mutself.replace_with){return;}let(lower_bound,_upper_bound)=self.replace_with.size_hint();iflower_bound>0{self.drain.move_tail(lower_bound);if!self.drain.fill(&mutself.replace_with){return;}}letmutcollected=Vec::new_in(self.drain.vec.as_ref().buf.bump());collected.extend(self.replace_with.by_ref());letmutcollected=collected.into_iter();ifcollected.len()>0{self.drain.move_tail(collected.len());letfilled=self.drain.fill(&mutcollected);"),
     ("src/collections/vec.rs", "partition_dedup_by", "vec_dedup_partition_loop",
      "letlen=s.len();iflen<=1{return(s,&mut[]);}letptr=s.as_mut_ptr();letmutnext_read:usize=1;letmutnext_write:usize=1;unsafe{whilenext_read<len{letptr_read=ptr.add(next_read);letprev_ptr_write=ptr.add(next_write-1);if!same_bucket(&mut*ptr_read,&mut*prev_ptr_write){ifnext_read!=next_write{letptr_write=prev_ptr_write.offset(1);mem::swap(&mut*ptr_read,&mut*ptr_write);}next_write+=1;}next_read+=1;}}s.split_at_mut(next_write)"),
     ("src/collections/vec.rs", "retain", "vec_retain_is_drain_filter", "{self.drain_filter(|x|!f(x));}"),
